@@ -60,6 +60,11 @@ Ltac case1 :=
   | H : context [match s_proc ?s with _ => _ end] |- _ => destruct (s_proc s) as [[[? ?] ?]|] eqn:?
   | H : context [match s_startd ?s with _ => _ end] |- _ => destruct (s_startd s) as [[]|] eqn:?
   | H : context [match s_mblock ?s with _ => _ end] |- _ => destruct (s_mblock s) as [[[? ?]|]|] eqn:?
+  | |- context [is_some (s_proc ?s)] => destruct (s_proc s) as [[[? ?] ?]|] eqn:?
+  | H : context [is_some (s_proc ?s)] |- _ => destruct (s_proc s) as [[[? ?] ?]|] eqn:?
+  | |- s_proc ?s = None => destruct (s_proc s) as [[[? ?] ?]|] eqn:?
+  | |- context [is_some (s_mblock ?s)] => destruct (s_mblock s) as [[[? ?]|]|] eqn:?
+  | H : context [is_some (s_mblock ?s)] |- _ => destruct (s_mblock s) as [[[? ?]|]|] eqn:?
   | H : context [s_stopping ?s] |- _ => destruct (s_stopping s) eqn:?
   | |- context [s_stopping ?s] => destruct (s_stopping s) eqn:?
   end.
@@ -81,8 +86,17 @@ Ltac pquick :=
         | solve [ unfold PInv, inv13b, dead, startd_unfired in *; psimpl; first [ assumption | congruence ] ]
         | solve [ unfold pw_abs; psimpl; f_equal; first [ reflexivity | congruence ] ]
         | solve [ unfold pw_abs; psimpl; rw_hyps; reflexivity ] ].
+(* only the most recent invariant hypothesis (about the current state) matters *)
+Ltac keep_last :=
+  try match goal with
+  | K : PInv _ _ ?s |- _ =>
+    repeat match goal with
+    | K' : PInv _ _ ?s2 |- _ => tryif constr_eq s s2 then fail else clear K'
+    | K' : PInvF _ ?s2 |- _ => tryif constr_eq s s2 then fail else clear K'
+    end
+  end.
 Ltac pheavy :=
-  unf; psimpl; dw; rw_hyps; rw_eqs; cbn beta iota in *; bcomp;
+  keep_last; unf; psimpl; dw; rw_hyps; rw_eqs; cbn beta iota in *; bcomp;
   try reflexivity; try assumption; try (f_equal; try reflexivity);
   psearch 5%nat.
 Ltac psolve := unfold PQ, PF, Fp in *; repeat split; first [ solve [pquick] | pheavy ].
@@ -251,7 +265,9 @@ Proof.
   - intros r g' s' [-> [H | (E & _)]]; [split; auto | discriminate E].
 Qed.
 
-Ltac wcond := first [ assumption | solve [intro; discriminate] | solve [cbn; intros; congruence] | solve [psolve] ].
+Ltac wcond := first [ assumption | solve [intro; discriminate] | solve [cbn; intros; congruence] | solve [psolve]
+  | solve [ let H := fresh "Hw" in intro H;
+            repeat match goal with W : is_some _ = true -> _ |- _ => specialize (W H) end; psolve ] ].
 Ltac c9 := idtac; first [ c8 | lazymatch goal with
   | |- wp _ (rec KStop) _ _ _ =>
     let w0 := cur_w in eapply p_eq with (w := w0); [ solve [psolve] |
